@@ -6,9 +6,7 @@ import struct
 import numpy as np
 
 
-class SimAbort(BaseException):
-    """Raised by a seam when a step cap is exceeded (BaseException: the library's
-    own 'except Exception' can never swallow it)."""
+from sim.boot import SimAbort  # noqa: E402,F401
 
 
 class SimTimeout(BaseException):
